@@ -38,7 +38,7 @@ SPEC = dict(
         # counts are "unaffected by anything but jumps and restores": restores between nodes of different tracking modes
         dict(family="visits", n=(60, 300), paths=(3, 5), calls=45, mode="snap",
              label="YarnTrace: jump graphs with Snapshot / RestoreAt interleaved (three runners)")],
-    scripts=dict(paths=(4, 20), calls=90, modes=[None, "snap"]),
+    scripts=dict(paths=(4, 20), calls=90, modes=[None, "snap"], mc=dict(invariants=INV, properties=PROPS, max_calls=9, after_end=1)),
     rule="jump graphs on <=3 nodes (self-loops, cycles, jumps out of nested option/if bodies, jumps by expression and through a probe), "
          "tracking in {none, always, never} per node: all paths up to 12/16 calls enumerated by TLC and replayed; random longer walks "
          "trace-validated; visited/visited_count rendered at every node entry for every node and a non-node, Snapshot().VisitedNodes "
